@@ -17,6 +17,7 @@ from __future__ import annotations
 
 import json
 import sys
+import time
 from fractions import Fraction
 
 from .common import HardTimeout, Run, main_wrapper, make_pool, pmap, time_limit
@@ -40,6 +41,8 @@ TIERS = {
 INVARIANTS = ["TypeOK", "GeometryInvariant", "OffAxis", "AllPairsOffered"]
 PROPERTIES = ["RoundTrip"]
 SYSTEMS = ("cart", "cyl", "sph")
+STEP_SECONDS = 30
+GROUP_SECONDS = 900
 
 _SYS = None
 _SYS2 = None
@@ -171,11 +174,7 @@ def observe(ctx, where, state, snap, start_coords):
     if snap["psys"] == start_coords[0]:
         for i, (got, want) in enumerate(zip(P.coordinates.values(), start_coords[1])):
             d = sp.N(sp.sympify(got) - want, 40)
-            exact = to_fraction(sp.sympify(got) - want)
-            if exact is not None:
-                same = exact == 0
-            else:
-                same = bool(d.is_number and abs(d) < sp.Float(10) ** -30)
+            same = bool(d.is_number and abs(d) < sp.Float(10) ** -30)
             if not same:
                 ctx.problems.append((where, f"round trip coordinate[{i}]",
                                      f"back in {snap['psys']}: coordinate {got}, originally {want}"))
@@ -187,42 +186,54 @@ def replay_group(group):
     from symplyphysics.core.experimental.coordinate_systems import convert_point, convert_vector
     ctx = _Ctx()
     start = group["start"]
+    t0 = time.time()
     try:
-        with time_limit(900):
+        with time_limit(STEP_SECONDS):
             P = make_point(start["pos"], start["psys"])
             Q = make_point(start["pos"], start["vsys"])
             V = make_vector(start["vec"], start["vsys"], Q)
             start_coords = (start["psys"], coords_of(start["pos"], start["psys"]))
             observe(ctx, (-1, 0), (P, V, Q), start, start_coords)
-            trie = {}
-            for idx, path in group["paths"]:
-                node = trie
-                for depth, step in enumerate(path):
-                    key = (step["act"], step["to"])
-                    node = node.setdefault(key, {"step": step, "idx": idx, "depth": depth, "next": {}})["next"]
+    except HardTimeout:
+        ctx.note("start state timed out (SymPy)")
+        return group["gid"], ctx.problems, ctx.outside, ctx.steps
+    trie = {}
+    for idx, path in group["paths"]:
+        node = trie
+        for depth, step in enumerate(path):
+            key = (step["act"], step["to"])
+            node = node.setdefault(key, {"step": step, "idx": idx, "depth": depth, "next": {}})["next"]
 
-            def walk(state, trie):
-                P, V, Q = state
-                for (act, to), node in trie.items():
-                    where = (node["idx"], node["depth"] + 1)
-                    ctx.steps += 1
-                    target = _init()[to]
+    def walk(state, trie):
+        P, V, Q = state
+        for (act, to), node in trie.items():
+            where = (node["idx"], node["depth"] + 1)
+            ctx.steps += 1
+            before = len(ctx.problems)
+            target = _init()[to]
+            try:
+                with time_limit(STEP_SECONDS):
                     try:
                         if act == "point":
                             new = (convert_point(P, target), V, Q)
                         else:
                             new = (P, convert_vector(V, Q, target), convert_point(Q, target))
-                    except HardTimeout:
-                        raise
                     except Exception as e:  # pylint: disable=broad-except
                         ctx.problems.append((where, f"convert {act} to {to}", f"conversion raised {type(e).__name__}: {str(e)[:100]}"))
                         continue
                     observe(ctx, where, new, node["step"], start_coords)
-                    walk(new, node["next"])
+            except HardTimeout:
+                ctx.note("step timed out (SymPy); the paths below it were not replayed")
+                continue
+            if len(ctx.problems) > before:
+                continue           # a failing step is reported once; the paths below it start from a wrong state
+            if time.time() - t0 > GROUP_SECONDS:
+                ctx.note("group budget exhausted (SymPy slow); deeper paths not replayed")
+                continue
+            walk(new, node["next"])
 
-            walk((P, V, Q), trie)
-    except HardTimeout:
-        ctx.note("group timed out (SymPy)")
+    if not ctx.problems:
+        walk((P, V, Q), trie)
     return group["gid"], ctx.problems, ctx.outside, ctx.steps
 
 
@@ -411,6 +422,8 @@ def main() -> int:
         "projection to Cartesian by the textbook formulas of harness/geom.py with the experimental convention "
         "(rho, azimuth, z) and (r, polar, azimuth)",
         "paths sharing a prefix share the execution of that prefix (the library calls are pure)",
+        "the A -> ... -> A identity of base scalars compares the returned coordinates (closed-form numbers such as "
+        "atan(13/84) vs acos(84/85)) with the original ones to 30 digits",
         "matrix invariants are decided at the points (a finite set), not symbolically",
     ]
     return run.finish(exhaustive=True)
